@@ -399,6 +399,51 @@ def check_formats(case, opts, fails):
     return True
 
 
+COMP = str.maketrans("ACGTNacgtn", "TGCANtgcan")
+
+
+def check_slices(case, opts, fails):
+    """C03: every written read is a contiguous slice of the input read (of its reverse complement when ' rc' was appended,
+    of the mate when paired --revcomp swapped the pair) with the same slice of the qualities; the only base changes are N
+    (mask) and lower case, and sequence and qualities have equal length."""
+    d, paired, rng = case.d, case.paired, case.rng
+    o1 = os.path.join(d, "sl1.fq")
+    outs = ["-o", o1] + (["-p", os.path.join(d, "sl2.fq")] if paired else [])
+    args = [x for x in opts if x != "--zero-cap"] + outs + case.inputs()
+    code, _, err = run(args)
+    if code != 0:
+        return False
+    src = {}
+    for recs in (case.r1, case.r2 if paired else []):
+        for name, seq, qual in recs:
+            src.setdefault(ident(name), []).append((seq, qual))
+    for path in [o1] + ([os.path.join(d, "sl2.fq")] if paired else []):
+        for name, seq, qual in read_records(path) or []:
+            rid = ident(name)
+            if len(seq) != len(qual):
+                fails.append(("C03", args, f"read {rid}: sequence and qualities differ in length ({len(seq)} / {len(qual)})"))
+                return True
+            ok = False
+            for s0, q0 in src.get(rid, []):
+                for cand_s, cand_q in ((s0, q0), (s0.translate(COMP)[::-1], q0[::-1])):
+                    for off in range(0, len(cand_s) - len(seq) + 1):
+                        if cand_q[off:off + len(seq)] != qual:
+                            continue
+                        part = cand_s[off:off + len(seq)]
+                        if all(a.upper() == b.upper() or a == "N" for a, b in zip(seq, part)):
+                            ok = True
+                            break
+                    if ok:
+                        break
+                if ok:
+                    break
+            if not ok:
+                fails.append(("C03", args, f"read {rid}: written sequence {seq!r} / qualities {qual!r} is not a slice of the input read "
+                                           f"(nor of its reverse complement / its mate) with at most N-masking and lower-casing"))
+                return True
+    return True
+
+
 def check_stdout(case, opts, fails):
     """C19: standard output has no name: FASTA exactly when --fasta is given, otherwise the input format (single-end and
     paired-end interleaved)."""
@@ -671,10 +716,14 @@ def main():
             kind = rng.choice(sorted(props))
             if kind == "C05" and paired and rng.random() < 0.4:
                 did = check_filters_paired(case, fails)
+            elif kind in ("C04", "C05") and rng.random() < 0.3:
+                did = check_demux(case, [], fails)      # its accounting / synchrony failures are tagged C04 / C05
             elif kind in ("C04", "C05"):
                 did = check_counts(case, mods + filt, fails)
             elif kind == "C15":
                 did = check_demux(case, [x for x in mods if x not in ("-a", "-g", "-A", f"x={A1}", f"y={A2}", f"u={A2}")] if False else [], fails)
+            elif kind == "C03":
+                did = check_slices(case, mods + ([f"--action={rng.choice(['mask', 'lowercase', 'retain', 'crop', 'trim'])}"] if "--action" not in mods and rng.random() < 0.5 else []), fails)
             elif kind == "C06":
                 did = check_cores(case, mods + [x for x in filt], fails)
             elif kind == "C19":
